@@ -11,7 +11,7 @@ CHECKS = {
    technique="Lean 4 proof (omega/nlinarith, 33-way case split on period bits) + regenerated constants + differential correspondence"),
  "C13": dict(engine="crash", design="§3 C13",
    text="Lean theorems over a disk model (chain db, dkg.db with staged+finished records, group file, share file; file states absent / empty / whole(epoch) / torn prefix classified by what the real decoder makes of it) and the persistence step sequences of the scripted runs, whose call orders are regenerated from the source on every run and tied by rfl: for EVERY crash point (after any number of steps, and with any torn prefix of a file written in place) — the chain store is the old store plus a prefix of the Put sequence, stays gap-free, and contains every round already handed to callbacks; dkg.db holds exactly the old or exactly the new pair of records; steps that only stage DKG state and beacon Puts preserve self-consistency. For the key files the full statement is NOT provable for the code as it is: proved instead an exact characterisation (self-consistent iff the crash point is before the first or after the last step of the completion, or the torn share already decodes to the whole share), the resulting partial theorem, concrete counterexample theorems for each window (db ahead of key files, unreadable/torn group, group ahead of share, torn share, leaving), and the full statement for the corrected variant that reconciles the key files from the finished DKG record at load. Tied to the code by driving one real node directory through scripted histories (first DKG, joining, resharing, eviction, staged-only steps, beacon production, restarts) with the real BoltStore.SaveCurrent/SaveFinished, BeaconProcess.onDKGCompleted (storeDKGOutput / leaveNetwork, fileStore.SaveGroup/SaveShare/Reset) and the handler's store stack; crash points are reconstructed from the inotify event stream and bbolt's commit counter (incl. the image one commit back), every image is materialised and the real DrandDaemon.LoadBeaconFromStore plus the raw loaders run on it; answers are compared with the model and judged by an independent oracle of the property statement. The 13 inconsistent windows of the unchanged code are registered known findings; any other inconsistent image is a violation.",
-   note="Lean kernel + standard axioms; go2lean persistence-order extractor; harness (inotify-derived cuts, bbolt meta-page roll-back); trusted: bbolt transaction atomicity/durability, file-system atomicity of create/rename/unlink and prefix semantics of an interrupted write, BurntSushi/toml. The DKG protocol is not executed: its hand-over (group, share, Complete state) is fabricated and SaveFinished/onDKGCompleted are performed in the order extracted from executeAndFinishDKG. Crash points inside joinNetwork's StartBeacon (chain db creation + genesis Put) are not cut. Torn prefixes are sampled at line boundaries/mid-line/1/half/len-1 in quick and at every byte offset in thorough (fixed scenarios).",
+   note="Lean kernel + standard axioms; go2lean persistence-order extractor; harness (inotify-derived cuts, bbolt meta-page roll-back); trusted: bbolt transaction atomicity/durability, file-system atomicity of create/rename/unlink and prefix semantics of an interrupted write, BurntSushi/toml. The DKG protocol is not executed: its hand-over (group, share, Complete state) is fabricated and SaveFinished/onDKGCompleted are performed in the order extracted from executeAndFinishDKG. Crash points inside joinNetwork's StartBeacon (chain db creation + genesis Put) are not cut. Torn prefixes are sampled at line boundaries/mid-line/1/half/len-1 in quick and at every byte offset in thorough (corpus scenarios: first DKG, resharing, join+eviction).",
    technique="Lean 4 proof (finite enumeration of crash images with symbolic epochs, induction over Put sequences) + regenerated persistence orders tied by rfl + differential correspondence on real directories with real loaders + independent property oracle + known-finding signatures"),
  "C18": dict(engine="store", design="§3 C18",
    text="Lean theorems: for every sequence of put/del the untrimmed bolt model keeps a strictly sorted key list whose entries carry their own round and Get answers exactly as a plain round->beacon map (refinement by induction over the op list); Last is the maximum; a cursor over a snapshot enumerates exactly the snapshot in strictly ascending order, Seek lands on the least round >= the argument and on the round itself when stored, every cursor read is an entry of the snapshot; trimmed store reads are labelled with the key found and the reconstructed previous signature is the stored signature of round-1 or the read fails; the memdb model stays sorted and within capacity for every op sequence, keeps an existing round, forgets only the smallest rounds, and its positional cursor only returns stored elements. Tied to the code by running the real boltdb (trimmed/untrimmed, with/without previous-required) and memdb stores against the model's executable definitions and against an independent sorted-map oracle.",
